@@ -252,8 +252,10 @@ Step(cfg, unreach, s) ==
                    IN sB
     [] k = "ecall" ->
          IF a7 \in {10, 93} THEN Halt(done(sL), "exit")
-         ELSE IF ~KnownEcall(a7) THEN Halt(sL, "unknown-ecall")
-         ELSE LET rets == EcallSig(a7)[2]
+         \* a call number that is not in the table: the environment hands results back in a0/a1 (as every listed call
+         \* does) and touches nothing else - what the value analysis assumes too; the run goes on, so that what the
+         \* analysis claims behind such a call is judged
+         ELSE LET rets == IF KnownEcall(a7) THEN EcallSig(a7)[2] ELSE {10, 11}
                   regs2 == [r \in Regs |-> IF r \in rets THEN EcallResult(sL.choice, r) ELSE sL.reg[r]]
               IN done(Define([sL EXCEPT !.reg = regs2, !.pc = NextPc(cfg, here)], TempRegs \cup ArgRegs))
     [] OTHER -> Halt(sL, "unsupported-control:" \o k)
